@@ -539,6 +539,9 @@ type vpHealth struct {
 	verdicts []bool
 	deadlineOK bool
 	maxCalls int
+	forceHealthy bool // from now on every verdict is "healthy" (no explorer choice)
+	maySlow  bool // the checker may ignore its context and answer after 150 ms (explorer's choice per call)
+	slow     []bool
 }
 
 func (h *vpHealth) Check(ctx context.Context) bool {
@@ -546,9 +549,19 @@ func (h *vpHealth) Check(ctx context.Context) bool {
 	dl, has := ctx.Deadline()
 	ok := has && dl.Sub(time.Now()) <= 100*time.Millisecond
 	vpAssert("C12.ctx-100ms", ok)
-	v := vpChoose("healthy", 2) == 1
+	v := true
+	if !h.forceHealthy {
+		v = vpChoose("healthy", 2) == 1
+	}
 	if h.yieldInCheck {
 		vpYield("health.check")
+	}
+	if h.maySlow {
+		sl := vpChoose("slow-check", 2) == 1
+		h.slow = append(h.slow, sl)
+		if sl {
+			time.Sleep(150 * time.Millisecond) // does not honour the context; the verdict is what it returns
+		}
 	}
 	h.verdicts = append(h.verdicts, v)
 	vpEvent("health", h.calls, v)
